@@ -1,8 +1,22 @@
-(* C45 — property theorems only. *)
+(* C45 — property theorems only.  `h` is the hash function: ANY function from byte strings to numbers
+   (the model reduces it mod 2^64); nothing is assumed about collisions or distribution.
+   answer h R P ops k  = what Lookup(k) returns on the model ring after New(R,P) and the history ops
+   sm_of ops           = the abstract member map (name -> latest value) after the history (Spec.v). *)
 From Coq Require Import List NArith ZArith Arith Bool.
-From Verif.C45 Require Import Model Spec Proofs.
+From Verif.C45 Require Import Model Spec Proofs Link.
 Import ListNotations.
 
-Theorem c45_key_eqb_refl : forall a, key_eqb a a = true.
-Proof. exact key_eqb_refl. Qed.
-Print Assumptions c45_key_eqb_refl.
+(* One owner from the current members: after any history, Lookup answers with the (latest) value of a
+   current member; it answers "none" only when there is no member; it never panics. *)
+Theorem c45_owner_in_members : forall (h : list N -> N) (R P : nat), (1 <= R)%nat ->
+  forall (ops : list (op val)) (k : key), owner_ok (sm_of ops) (answer h R P ops k).
+Proof. exact owner_in_members. Qed.
+Print Assumptions c45_owner_in_members.
+
+(* The owner depends only on the current member set: two histories (of inserts, updates, removes,
+   lookups that sweep and sort, Len calls) that end with the same members give the same answer. *)
+Theorem c45_history_independent : forall (h : list N -> N) (R P : nat), (1 <= R)%nat ->
+  forall ops1 ops2 : list (op val), same_members (sm_of ops1) (sm_of ops2) ->
+  forall k, answer h R P ops1 k = answer h R P ops2 k.
+Proof. exact history_independent. Qed.
+Print Assumptions c45_history_independent.
